@@ -66,7 +66,7 @@ def analyse_variant(args):
                 viol.append('%s|%s|%s' % (o.rule, o.anchor.split(':')[-1], o.construct))
         errs = ['%s: %s' % e for e in chk.errors]
         for rule, minimum in chk.minimums.items():
-            if counts.get(rule, 0) < minimum:
+            if counts.get(rule, 0) < minimum and rule not in chk.soft_skipped:
                 errs.append('%s: matched %d < %d' % (rule, counts.get(rule, 0), minimum))
         return name, viol, errs
     except Exception as e:  # pragma: no cover
@@ -170,38 +170,27 @@ def hoist_temps(source, rnd):
     tree = ast.parse(source)
     counter = [0]
 
-    class T(ast.NodeTransformer):
-        def generic_body(self, body):
-            out = []
-            for s in body:
-                s = self.visit(s)
-                if isinstance(s, ast.Assign) and len(s.targets) == 1 and isinstance(s.targets[0], ast.Name) and isinstance(s.value, (ast.BinOp, ast.Call)) \
-                        and not any(isinstance(x, (ast.Yield, ast.Await, ast.NamedExpr)) for x in ast.walk(s.value)) and rnd.random() < 0.5:
-                    counter[0] += 1
-                    tmp = '_pvs_tmp%d' % counter[0]
-                    out.append(ast.Assign(targets=[ast.Name(id=tmp, ctx=ast.Store())], value=s.value, lineno=s.lineno, col_offset=s.col_offset))
-                    out.append(ast.Assign(targets=s.targets, value=ast.Name(id=tmp, ctx=ast.Load()), lineno=s.lineno, col_offset=s.col_offset))
-                else:
-                    out.append(s)
-            return out
-
-        def visit_FunctionDef(self, node):
-            self.generic_visit(node)
-            node.body = self.generic_body(node.body)
-            return node
-
-        def visit_For(self, node):
-            self.generic_visit(node)
-            node.body = self.generic_body(node.body)
-            return node
-        visit_While = visit_For
-
-        def visit_If(self, node):
-            self.generic_visit(node)
-            node.body = self.generic_body(node.body)
-            node.orelse = self.generic_body(node.orelse)
-            return node
-    T().visit(tree)
+    def process(body):
+        out = []
+        for s in body:
+            for field in ('body', 'orelse', 'finalbody'):
+                sub = getattr(s, field, None)
+                if isinstance(sub, list) and sub and isinstance(sub[0], ast.stmt) and not isinstance(s, ast.ClassDef):
+                    setattr(s, field, process(sub))
+            if isinstance(s, ast.ClassDef):
+                s.body = [process([x])[0] if isinstance(x, (ast.FunctionDef, ast.AsyncFunctionDef)) else x for x in s.body]
+            for h in getattr(s, 'handlers', []) or []:
+                h.body = process(h.body)
+            if isinstance(s, ast.Assign) and len(s.targets) == 1 and isinstance(s.targets[0], ast.Name) and isinstance(s.value, (ast.BinOp, ast.Call)) \
+                    and not any(isinstance(x, (ast.Yield, ast.Await, ast.NamedExpr)) for x in ast.walk(s.value)) and rnd.random() < 0.5:
+                counter[0] += 1
+                tmp = '_pvs_tmp%d' % counter[0]
+                out.append(ast.Assign(targets=[ast.Name(id=tmp, ctx=ast.Store())], value=s.value, lineno=s.lineno, col_offset=s.col_offset))
+                out.append(ast.Assign(targets=s.targets, value=ast.Name(id=tmp, ctx=ast.Load()), lineno=s.lineno, col_offset=s.col_offset))
+            else:
+                out.append(s)
+        return out
+    tree.body = [process([x])[0] if isinstance(x, (ast.FunctionDef, ast.AsyncFunctionDef, ast.ClassDef)) else x for x in tree.body]
     ast.fix_missing_locations(tree)
     return ast.unparse(tree)
 
@@ -310,7 +299,10 @@ def apply_patch_text(files, patch_path):
 def run(prop, repo, chk, seed):
     rnd = random.Random(seed)
     files = base_files(repo)
-    base_viol = sorted('%s|%s|%s' % (o.rule, o.anchor.split(':')[-1], o.construct) for o in chk.obs if not o.ok)
+    from .report import load_known, match_known
+    _known = load_known()
+    base_viol = sorted('%s|%s|%s' % (o.rule, o.anchor.split(':')[-1], o.construct) for o in chk.obs
+                       if not o.ok and match_known(_known, prop, o) is None)
     analysed = sorted(chk.functions)
     mods = {}
     for q in analysed:
